@@ -383,6 +383,12 @@ def body(draw, env, depth, n_min=1, n_max=None, need_consuming=True, first_must_
                 if sep is not None:
                     out.append(sep)
                     cur, _ = ir.seq_summaries([cur, ir.stmt_summary(sep, [])])
+        if obey and s[0] in ("delete", "assignstr") and cur.tail and out and out[-1][0] == "append" and out[-1][1] == s[1]:
+            # known finding (C01): a plain delete/assignment right after an open-ended append to the same buffer runs after every byte
+            sep = _separator(draw, cur.tail)
+            if sep is not None:
+                out.append(sep)
+                cur, _ = ir.seq_summaries([cur, ir.stmt_summary(sep, [])])
         if obey and ir.is_action(s) and is_strict(s) and cur.tail and consumed:
             sep = _separator(draw, cur.tail)
             if sep is not None:
@@ -448,12 +454,18 @@ def body(draw, env, depth, n_min=1, n_max=None, need_consuming=True, first_must_
             push(("optional", b))
         elif k == "try":
             b = draw(body(env, depth - 1, 1, 3, allow_terminal=False))
+            if obey and ir.body_summary(b, []).tail:
+                # a try body that ends by lookahead: which handler owns a mismatch at that boundary is not defined by the reference
+                sep = _separator(draw, ir.body_summary(b, []).tail)
+                if sep is not None:
+                    b = b + (sep,)
             h = draw(body(env, depth - 1, 0, 2, need_consuming=False, allow_terminal=False))
             reasons = draw(st.sampled_from([None, None, ("nomatch",), ("outofspace",), ("nomatch", "outofspace")]))
             push(("try", reasons, b, h))
         elif k == "foreach":
             b = draw(body(env, depth - 1, 1, 2, first_must_match=True, leading_actions=False, allow_terminal=False))
-            acts = [a for a in [draw(action(env, allow=("assign", "hook", "appendc", "delete", "assignstr"), last_ok=cfg.allow_last))
+            # (no char-append among foreach actions: the reference does not say whether the triggering byte counts as consumed when it overflows)
+            acts = [a for a in [draw(action(env, allow=("assign", "hook", "delete", "assignstr"), last_ok=cfg.allow_last))
                                 for _ in range(draw(st.integers(1, 2)))] if a is not None]
             if acts:
                 push(("foreach", b, tuple(acts)))
@@ -493,6 +505,11 @@ def loop_stmt(draw, env, depth, followed):
             pre = ()
             if shape == "body-then-case":
                 pre = draw(body(env, depth, 1, 2, first_must_match=False, allow_terminal=False))
+                if draw(st.booleans()):
+                    # loop start actions: run once per iteration
+                    a = draw(action(env, allow=("hook", "assign", "assignstr", "delete")))
+                    if a is not None:
+                        pre = (a,) + tuple(pre)
             clauses = []
             used_first = set()
             for _ in range(draw(st.integers(1, 2))):
